@@ -390,11 +390,11 @@ def strFormAlgG (M : Nat) (lsb0 : Bool) (l : Bits) : Str :=
   let length := l.length
   if length = 0 then [] else
   if length > M * 4 then
-    pre0x ++ hexDigits (sliceAB lsb0 l 0 (M * 4)) ++ dots else
+    pre0x ++ hexDigits (sliceAB false l 0 (M * 4)) ++ dots else
   if length < 32 ∧ length % 4 ≠ 0 then pre0b ++ binDigits l else
   if length % 4 = 0 then pre0x ++ hexDigits l else
   let e := length % 4
-  pre0x ++ hexDigits (sliceAB lsb0 l 0 (length - e)) ++ commaSp ++ pre0b ++ binDigits (sliceAB lsb0 l (length - e) length)
+  pre0x ++ hexDigits (sliceAB false l 0 (length - e)) ++ commaSp ++ pre0b ++ binDigits (sliceAB false l (length - e) length)
 
 theorem strForm_eq_G (l : Bits) : strForm l = strFormG Gen.maxChars l := rfl
 theorem strFormAlg_eq_G (lsb0 : Bool) (l : Bits) : strFormAlg lsb0 l = strFormAlgG Gen.maxChars lsb0 l := rfl
@@ -406,8 +406,10 @@ theorem sliceAB_msb0_tail (l : Bits) (n : Nat) : sliceAB false l n l.length = l.
   simp only [sliceAB, Bool.false_eq_true, if_false]
   exact List.take_of_length_le (by simp only [List.length_drop]; omega)
 
-theorem strFormAlgG_msb0 (M : Nat) (l : Bits) : strFormAlgG M false l = strFormG M l := by
+theorem strFormAlgG_eq (M : Nat) (lsb0 : Bool) (l : Bits) : strFormAlgG M lsb0 l = strFormG M l := by
   simp only [strFormAlgG, strFormG, sliceAB_msb0_zero, sliceAB_msb0_tail]
+
+theorem strFormAlgG_msb0 (M : Nat) (l : Bits) : strFormAlgG M false l = strFormG M l := strFormAlgG_eq M false l
 
 theorem parse_strFormG (M : Nat) (l : Bits) (h : l.length ≤ 4 * M) : parseAuto (strFormG M l) = .ok l := by
   unfold strFormG
@@ -428,5 +430,219 @@ theorem parse_strFormG (M : Nat) (l : Bits) (h : l.length ≤ 4 * M) : parseAuto
             (by simp only [List.length_drop]; omega)
           rw [List.take_append_drop] at this
           exact this
+
+/-! ### the `...` mark -/
+
+theorem endsWithDots_cons4 (x y z w : Char) (t : Str) :
+    endsWithDots (x :: y :: z :: w :: t) = endsWithDots (y :: z :: w :: t) := by
+  simp only [endsWithDots]
+
+theorem endsWithDots_append_dots (s : Str) : endsWithDots (s ++ dots) = true := by
+  induction s with
+  | nil => decide
+  | cons x t ih =>
+    match t, ih with
+    | [], _ => exact (endsWithDots_cons4 x '.' '.' '.' []).trans (by decide)
+    | [a], ih => exact (endsWithDots_cons4 x a '.' '.' ['.']).trans ih
+    | [a, b], ih => exact (endsWithDots_cons4 x a b '.' ['.', '.']).trans ih
+    | a :: b :: c :: u, ih => exact (endsWithDots_cons4 x a b c (u ++ dots)).trans ih
+
+theorem endsWithDots_getLast (s : Str) (h : endsWithDots s = true) : s.getLast? = some '.' := by
+  fun_induction endsWithDots s with
+  | case1 => cases h
+  | case2 => cases h
+  | case3 => cases h
+  | case4 a b c =>
+    simp only [Bool.and_eq_true, decide_eq_true_eq] at h
+    simp only [List.getLast?_cons_cons, List.getLast?_singleton, h.2]
+  | case5 x t h1 h2 h3 ih =>
+    match t, h1 with
+    | [], h1 => exact absurd rfl h1
+    | y :: u, _ => rw [List.getLast?_cons_cons]; exact ih h
+
+theorem endsWithDots_digits (x d : Str) (hd : DigStr 16 d) (hne : 0 < d.length) : endsWithDots (x ++ d) = false := by
+  cases hE : endsWithDots (x ++ d) with
+  | false => rfl
+  | true =>
+    exfalso
+    have h1 := endsWithDots_getLast _ hE
+    have hdne : d ≠ [] := fun e => by rw [e] at hne; exact Nat.lt_irrefl 0 hne
+    rw [List.getLast?_append] at h1
+    cases hl : d.getLast? with
+    | none => exact hdne (List.getLast?_eq_none_iff.mp hl)
+    | some c =>
+      rw [hl, Option.some_or] at h1
+      rw [h1] at hl
+      exact hd.not_mem dig_ne_dot (List.mem_of_getLast? hl)
+
+theorem strFormG_truncated (M : Nat) (l : Bits) (h : l.length > 4 * M) :
+    strFormG M l = pre0x ++ hexDigits (l.take (4 * M)) ++ dots := by
+  unfold strFormG
+  simp only
+  rw [if_neg (by omega), if_pos (by omega), Nat.mul_comm M 4]
+
+theorem strFormG_marks_iff (M : Nat) (l : Bits) : endsWithDots (strFormG M l) = true ↔ l.length > 4 * M := by
+  constructor
+  · intro hE
+    by_contra hlen
+    have hlen : ¬ l.length > M * 4 := by omega
+    unfold strFormG at hE
+    simp only [hlen, if_false] at hE
+    split at hE
+    · cases hE
+    · split at hE
+      · rw [endsWithDots_digits _ _ ((binDigits_digStr l).mono (by omega)) (by rw [binDigits_length]; omega)] at hE
+        cases hE
+      · split at hE
+        · rw [endsWithDots_digits _ _ (hexDigits_digStr l) (by rw [hexDigits_length]; omega)] at hE
+          cases hE
+        · rw [endsWithDots_digits _ _ ((binDigits_digStr _).mono (by omega))
+            (by rw [binDigits_length, List.length_drop]; omega)] at hE
+          cases hE
+  · intro h
+    rw [strFormG_truncated M l h]
+    exact endsWithDots_append_dots _
+
+theorem quote_not_mem_strFormG (M : Nat) (l : Bits) : '\'' ∉ strFormG M l := by
+  have hh : ∀ b, '\'' ∉ hexDigits b := fun b => (hexDigits_digStr b).not_mem dig_ne_quote
+  have hb : ∀ b, '\'' ∉ binDigits b := fun b => ((binDigits_digStr b).mono (by omega : 2 ≤ 16)).not_mem dig_ne_quote
+  have h1 : '\'' ∉ pre0x := by decide
+  have h2 : '\'' ∉ pre0b := by decide
+  have h3 : '\'' ∉ commaSp := by decide
+  have h4 : '\'' ∉ dots := by decide
+  unfold strFormG
+  simp only
+  split
+  · exact List.not_mem_nil
+  · split
+    · simp only [List.mem_append, not_or]; exact ⟨⟨h1, hh _⟩, h4⟩
+    · split
+      · simp only [List.mem_append, not_or]; exact ⟨h2, hb _⟩
+      · split
+        · simp only [List.mem_append, not_or]; exact ⟨h1, hh _⟩
+        · simp only [List.mem_append, not_or]; exact ⟨⟨⟨⟨h1, hh _⟩, h3⟩, h2⟩, hb _⟩
+
+/-! ### decimal numbers -/
+
+theorem natDecAux_acc (fuel n : Nat) (acc : Str) : natDecAux fuel n acc = natDecAux fuel n [] ++ acc := by
+  induction fuel generalizing n acc with
+  | zero => rfl
+  | succ f ih =>
+    simp only [natDecAux]
+    split
+    · rfl
+    · rw [ih (n / 10) (digitChar (n % 10) :: acc), ih (n / 10) [digitChar (n % 10)], List.append_assoc]
+      rfl
+
+theorem natDecAux_succ (fuel n : Nat) :
+    natDecAux (fuel + 1) n [] =
+      if n < 10 then [digitChar n] else natDecAux fuel (n / 10) [] ++ [digitChar (n % 10)] := by
+  simp only [natDecAux]
+  split
+  · next h => rw [Nat.mod_eq_of_lt h]
+  · exact natDecAux_acc _ _ _
+
+theorem parseNatAux_append (acc : Nat) (s t : Str) :
+    parseNatAux acc (s ++ t) = (parseNatAux acc s).bind fun v => parseNatAux v t := by
+  induction s generalizing acc with
+  | nil => rfl
+  | cons c u ih =>
+    simp only [List.cons_append, parseNatAux]
+    cases decVal? c with
+    | none => rfl
+    | some d => exact ih _
+
+theorem parseNatAux_natDecAux (fuel n : Nat) (h : n < fuel) : parseNatAux 0 (natDecAux fuel n []) = some n := by
+  induction fuel generalizing n with
+  | zero => omega
+  | succ f ih =>
+    rw [natDecAux_succ]
+    split
+    · next h10 =>
+      simp only [parseNatAux, dig_decVal n h10]
+      congr 1; omega
+    · next h10 =>
+      rw [parseNatAux_append, ih (n / 10) (by omega)]
+      simp only [Option.bind_some, parseNatAux, dig_decVal (n % 10) (Nat.mod_lt _ (by omega))]
+      congr 1; omega
+
+theorem natDecAux_pos (fuel n : Nat) : 0 < (natDecAux (fuel + 1) n []).length := by
+  rw [natDecAux_succ]
+  split
+  · exact Nat.zero_lt_one
+  · rw [List.length_append]; exact Nat.lt_of_lt_of_le Nat.zero_lt_one (Nat.le_add_left _ _)
+
+theorem natDecAux_digStr (fuel n : Nat) : DigStr 10 (natDecAux fuel n []) := by
+  induction fuel generalizing n with
+  | zero => exact DigStr.nil 10
+  | succ f ih =>
+    rw [natDecAux_succ]
+    split
+    · next h => exact DigStr.cons h (DigStr.nil 10)
+    · exact (ih _).append (DigStr.cons (Nat.mod_lt _ (by omega)) (DigStr.nil 10))
+
+theorem natDec_digStr (n : Nat) : DigStr 10 (natDec n) := natDecAux_digStr _ _
+
+theorem parseNat_natDec (n : Nat) : parseNat? (natDec n) = some n := by
+  unfold parseNat? natDec
+  have hne : natDecAux (n + 1) n [] ≠ [] := by
+    intro e
+    have := natDecAux_pos n n
+    rw [e] at this
+    exact Nat.lt_irrefl 0 this
+  rw [if_neg hne]
+  exact parseNatAux_natDecAux _ _ (Nat.lt_succ_self n)
+
+/-! ### `repr` -/
+
+theorem splitAtChar_append (c : Char) (s t : Str) (h : c ∉ s) : splitAtChar c (s ++ c :: t) = some (s, t) := by
+  induction s with
+  | nil => simp only [List.nil_append, splitAtChar, if_true]
+  | cons x u ih =>
+    have hx : x ≠ c := fun e => h (e ▸ List.mem_cons_self)
+    have hu : c ∉ u := fun hm => h (List.mem_cons_of_mem _ hm)
+    simp only [List.cons_append, splitAtChar, hx, if_false, ih hu, Option.map_some]
+
+theorem isPrefixStr_append (p r : Str) : isPrefixStr p (p ++ r) = some r := by
+  induction p with
+  | nil => cases r <;> rfl
+  | cons a u ih => simp only [List.cons_append, isPrefixStr, if_true, ih]
+
+theorem clsOfName_nameStr (c : Cls) : clsOfName? (Cls.nameStr c) = some c := by cases c <;> decide
+theorem lparen_not_mem_nameStr (c : Cls) : '(' ∉ Cls.nameStr c := by cases c <;> decide
+
+theorem parseRepr_text (cls : Cls) (s : Str) (l : Bits) (pos : Nat) (hq : '\'' ∉ s)
+    (hparse : parseAuto s = .ok l) (hp : pos ≤ l.length) (hc : cls.hasPos = false → pos = 0) :
+    parseRepr (Cls.nameStr cls ++ ['(', '\''] ++ s ++ ['\''] ++ (if pos ≠ 0 then posEq ++ natDec pos else [])
+        ++ [')'] ++ []) = .ok (cls, l, pos) := by
+  have e : ∀ ps : Str, Cls.nameStr cls ++ ['(', '\''] ++ s ++ ['\''] ++ ps ++ [')'] ++ []
+      = Cls.nameStr cls ++ '(' :: ('\'' :: (s ++ '\'' :: (ps ++ [')']))) := by
+    intro ps
+    simp only [List.append_assoc, List.cons_append, List.nil_append, List.append_nil]
+  rw [e]
+  unfold parseRepr
+  simp only [splitAtChar_append _ _ _ (lparen_not_mem_nameStr cls), clsOfName_nameStr,
+    splitAtChar_append _ _ _ hq, hparse]
+  by_cases h0 : pos = 0
+  · subst h0
+    simp only [ne_eq, not_true_eq_false, if_false, List.nil_append]
+    rfl
+  · have hcp : cls.hasPos = true := by
+      cases hh : cls.hasPos with
+      | true => rfl
+      | false => exact absurd (hc hh) h0
+    have hr : ')' ∉ natDec pos := ((natDec_digStr pos).mono (by omega : 10 ≤ 16)).not_mem dig_ne_rparen
+    simp only [ne_eq, h0, not_false_eq_true, if_true]
+    rw [List.append_assoc, isPrefixStr_append]
+    simp only [splitAtChar_append _ _ _ hr, parseNat_natDec, hcp, not_true_eq_false, if_false,
+      Nat.not_lt.mpr hp]
+    split
+    · next r hh =>
+      exact absurd (List.cons.inj hh).1 (by decide)
+    · rfl
+
+theorem parse_truncated_prefixG (M : Nat) (hM : 0 < M) (l : Bits) (h : l.length > 4 * M) :
+    parseAuto (pre0x ++ hexDigits (l.take (4 * M))) = .ok (l.take (4 * M)) :=
+  parseAuto_hexLit _ (by simp only [List.length_take]; omega) (by simp only [List.length_take]; omega)
 
 end BM.C19
